@@ -26,6 +26,10 @@ func childMain(dir string) {
 		fmt.Println("bad spec:", err)
 		os.Exit(3)
 	}
+	if sp.Phase == "concur" {
+		concurChild(dir, sp)
+		return
+	}
 	wdir := dir
 	if sp.Phase == "follow" && sp.FollowDir != "" {
 		wdir = sp.FollowDir // operate on the tree a killed run left behind
